@@ -359,6 +359,9 @@ class G:
             elif hdr == 1:
                 # a starred target (the starred name is not used by the body)
                 target, it, newvars, withlen = "%s, *%s" % (tv, self.uid("r")), "[(cs, cn), (cx0, cn, cn)]", [(tv, "str")], True
+            elif hdr == 3:
+                # characters outside ASCII in the header, before the end of the iterable
+                it, newvars, withlen = "['\u00e9\u00f1' + cs, '\u65e5', cx0]", [(tv, "str")], True
             elif hdr == 2:
                 # the header continued over two lines
                 it, newvars, withlen = "[cs, \\\n    cx0]", [(tv, "str")], True
